@@ -29,7 +29,10 @@ RULE = ("seeded random envelope specifications: 2-12 levels (any sign / positive
         "/ negative / non-negative classes so that exp, sqr and cub stay in their "
         "documented domain), times scalar / shorter / equal with zero-length "
         "segments, curves by documented name, number, mixed list, shorter list, "
-        "release and loop nodes, 10% multichannel; 20 evaluation times per "
+        "release and loop nodes, 18% multichannel (nested per-channel entries in "
+        "levels, times and curves - names, numbers, mixed); pairs / xyc points "
+        "unsorted, with several points on one time (rises and drops) and mixed "
+        "curve kinds on one point; 20 evaluation times per "
         "envelope at, between, before, after breakpoints; every 4th envelope is "
         "also compiled into a SynthDef and decoded; constructor calls with random "
         "parameter subsets.  Non-trivial: at least two segments and (wrapped "
@@ -49,6 +52,9 @@ MIN_COUNTERS = {
     'at_exact_breakpoint_checks': 300, 'at_inside_checks': 500,
     'at_after_checks': 200, 'envgen_defs_decoded': 50,
     'ctor_breakpoints_compared': 200, 'ctor_argument_snapshots': 300,
+    'enc_multichannel': 100, 'enc_nested_curves_with_name': 30,
+    'ctor_points_equal_times': 50, 'ctor_points_drop': 20,
+    'ctor_points_same_point_mixed_curves': 5,
 }
 
 CTORS = ['triangle', 'sine', 'perc', 'linen', 'cutoff', 'adsr', 'dadsr', 'asr',
@@ -148,6 +154,12 @@ def run_env(spec, acc):
         if a['release_node'] is None: acc.count('enc_release_absent')
         if a['loop_node'] is not None: acc.count('enc_loop_present')
         if a['multichannel']: acc.count('enc_multichannel')
+        if isinstance(a['curves'], list):
+            nested = [c for c in a['curves'] if isinstance(c, list)]
+            if nested:
+                acc.count('enc_nested_curves')
+                if any(isinstance(x, str) for c in nested for x in c):
+                    acc.count('enc_nested_curves_with_name')
         for ch in exp:
             for s in range(nseg):
                 acc.count(f'shape_{ch[6 + 4 * s]}')
@@ -343,6 +355,9 @@ def run_ctor(spec, acc):
                     w[2] = g[2]
             acc.count('ctor_release_node_unchecked')
         acc.count('ctor_breakpoints_compared')
+        for flag in ('equal_times', 'drop', 'same_point_mixed_curves'):
+            if exp.get(flag):
+                acc.count('ctor_points_' + flag)
         diff = M.same_arrays(got, want)
         if diff:
             acc.violation(f'C19/constructor-breakpoints/{name}/{diff}',
